@@ -9,6 +9,17 @@ def programs(tier, rnd: random.Random):
     step = 6 if tier == "quick" else 1
     off = rnd.randrange(step)
     progs = ops[off::step] + list(gen_prog.unop_matrix())
+    # depth 2: an arithmetic result of narrow operands consumed by a sign-/width-sensitive operator
+    narrow = ["int8_t", "uint8_t", "int16_t", "uint16_t"]
+    consumers = ["(%s) >> 1", "(%s) >> b", "(%s) < 0", "(%s) >= c", "(int64_t)(%s)", "(uint64_t)(%s)", "(%s) * 2", "~(%s)", "-(%s)",
+                 "(%s) == -1", "((%s) < 0) ? 1 : 2", "(%s) << 4", "(%s) & 0xffff0000", "(%s) + c"]
+    fam = []
+    for ta in narrow:
+        for tb in narrow:
+            for op in ("+", "-", "*", "&", "|", "^"):
+                for cons in consumers:
+                    fam.append(f"{{ {ta} a = RssV; {tb} b = RttV; int32_t c = RuV; RddV = {cons % ('a ' + op + ' b')}; }}")
+    progs += fam if tier != "quick" else rnd.sample(fam, 90)
     g = gen_prog.Gen(rnd)
     n = 120 if tier == "quick" else 1500
     for _ in range(n):
